@@ -38,3 +38,15 @@ Definition sdrz_doc_ok (geometry D_ rho_0 gamma : R) : Prop :=
 (* DSD CylindricalExpansion: geometry 2; 0 < r_1 < r_2; D_CJ_i > 0; alpha_i >= 0 *)
 Definition cylexp_doc_ok (geometry r_1 r_2 D_CJ_1 D_CJ_2 alpha_1 alpha_2 t_d : R) : Prop :=
   geometry = 2 /\ 0 < r_1 /\ 0 < r_2 /\ r_1 < r_2 /\ 0 < D_CJ_1 /\ 0 < D_CJ_2 /\ 0 <= alpha_1 /\ 0 <= alpha_2.
+
+(* DSD RateStick: geometry 1/2; R > 0; 0 < omega_c < pi/2; D_CJ > 0; alpha >= 0; IC in {1,2,3};
+   "if IC = 1 the radius of the detonation front must satisfy r_d >= R / cos(omega_c)"; t_f, xnodes, ynodes > 0 *)
+Definition ratestick_doc_ok (geometry R_ omega_c D_CJ alpha IC r_d t_f xnodes ynodes : R) : Prop :=
+  (geometry = 1 \/ geometry = 2) /\ 0 < R_ /\ 0 < omega_c /\ omega_c < PI / 2 /\ 0 < D_CJ /\ 0 <= alpha /\
+  (IC = 1 \/ IC = 2 \/ IC = 3) /\ (IC = 1 -> R_ / cos omega_c <= r_d) /\ 0 < t_f /\ 0 < xnodes /\ 0 < ynodes.
+
+(* DSD ExplosiveArc: geometry 1; 0 < r_1 < r_2; 0 < omega_in <= omega_out <= pi/2 with omega_in < pi/2; detonator x_d < 0;
+   D_CJ > 0; alpha >= 0; t_f, xnodes, ynodes > 0 *)
+Definition explosivearc_doc_ok (geometry r_1 r_2 omega_in omega_out x_d D_CJ alpha t_f xnodes ynodes : R) : Prop :=
+  geometry = 1 /\ 0 < r_1 /\ 0 < r_2 /\ r_1 < r_2 /\ 0 < omega_in /\ omega_in < PI / 2 /\ omega_in <= omega_out /\
+  omega_out <= PI / 2 /\ x_d < 0 /\ 0 < D_CJ /\ 0 <= alpha /\ 0 < t_f /\ 0 < xnodes /\ 0 < ynodes.
